@@ -18,11 +18,15 @@ EXPLANATION = (
 )
 ASSUMPTIONS = ["redb tables are identified by their key/value types", "redb range semantics trusted"]
 
+
 RR = "store::fs::Store::remove_replica"
 EXEMPT = {"authors": "author keys are store-global, not per document"}
 # a silently failed removal from the by-key index leaves only stale ids, which every reader of the
 # index skips (C05.R6); it is not observable, so demanding propagation would exceed the property
 TOLERATED_DISCARD = {"records_by_key": "stale ids in the by-key index are skipped by its readers (not observable)"}
+
+
+EXPLANATION += ' (R9, round 8) also the close cells of the API handle (= C14.R5). (R10) = C12.R9: a refused removal does not end the event streams of the holders.'
 
 
 def r1(ctx, rule="C16.R1", only=None):
